@@ -292,7 +292,7 @@ fn extreme(tape: &mut Tape, s: &mut Stream) -> Option<String> {
 /// Crafted amplification attempts: many pointers onto one block, many tiny messages, blocks that
 /// overlap - inputs whose decoded size might grow faster than the input.
 fn amplification(tape: &mut Tape, r: &mut Rng) -> (Vec<u8>, String) {
-    let mode = tape.weighted(&[2, 2, 2]);
+    let mode = tape.weighted(&[2, 2, 2, 3]);
     match mode {
         0 => {
             // one message, n pointers all onto one moment block
@@ -344,6 +344,48 @@ fn amplification(tape: &mut Tape, r: &mut Rng) -> (Vec<u8>, String) {
             }
             (out, format!("{} messages, 7 overlapping moment blocks of up to {} gates each", k, gates))
         }
+        3 => {
+            // a chain of small messages, each holding a huge moment block whose gate data covers
+            // the messages that follow, plus a small block nested inside that gate data: a decoder
+            // that leaves the reader anywhere but after the furthest block re-enters the covered
+            // bytes and retains one huge buffer per 108 bytes of input
+            let n = 2 + tape.draw(300) as usize;
+            let gates = [65535usize, 40000, 1840, 20000][tape.draw(4) as usize];
+            let word = [255u8, 16, 8, 64][tape.draw(4) as usize];
+            let small_first = tape.draw(2) == 1;
+            let small_name: &[u8; 3] = [b"ELV", b"RAD", b"VOL"][tape.draw(3) as usize];
+            let small_len = match small_name {
+                b"ELV" => 12,
+                b"RAD" => 28,
+                _ => 52,
+            };
+            let data_len = gates * (word as usize / 8);
+            let msg_len = 28 + 32 + 8 + 28 + small_len;
+            let mut out = Vec::with_capacity(n * msg_len + data_len);
+            for i in 0..n {
+                let mut body = vec![0u8; 32 + 8 + 28 + small_len];
+                r.fill(&mut body);
+                body[0..4].copy_from_slice(b"KDMX");
+                body[30..32].copy_from_slice(&2u16.to_be_bytes());
+                let (p_big, p_small) = (40u32, 68u32);
+                let (first, second) = if small_first { (p_small, p_big) } else { (p_big, p_small) };
+                body[32..36].copy_from_slice(&first.to_be_bytes());
+                body[36..40].copy_from_slice(&second.to_be_bytes());
+                body[40] = b'D';
+                body[41..44].copy_from_slice(b"REF");
+                body[48..50].copy_from_slice(&(gates as u16).to_be_bytes());
+                body[59] = word;
+                body[68] = b'R';
+                body[69..72].copy_from_slice(small_name);
+                let mut msg = icd::random_header(r, 31, i as u16, body.len()).encode();
+                msg.extend_from_slice(&body);
+                out.extend_from_slice(&msg);
+            }
+            let mut filler = vec![0u8; data_len];
+            r.fill(&mut filler);
+            out.extend_from_slice(&filler);
+            (out, format!("chain of {} messages of {} bytes, each with a {}-byte moment block covering its successors and a nested {} block (small pointer first: {})", n, msg_len, data_len, String::from_utf8_lossy(small_name), small_first))
+        }
         _ => {
             // many minimal messages (header + 32-byte data header, zero blocks)
             let k = 1 + tape.draw(20000) as usize;
@@ -375,12 +417,12 @@ impl Check for C04 {
     fn plan(&self, tier: Tier) -> Vec<Section> {
         match tier {
             Tier::Quick => vec![
-                Section { name: "damaged-streams", runs: 60_000 },
-                Section { name: "field-extremes", runs: 60_000 },
-                Section { name: "random-bytes-all-entry-points", runs: 40_000 },
-                Section { name: "every-prefix-with-reader-faults", runs: 1_500 },
-                Section { name: "amplification-attempts", runs: 400 },
-                Section { name: "single-decoders-damaged", runs: 30_000 },
+                Section { name: "damaged-streams", runs: 200_000 },
+                Section { name: "field-extremes", runs: 200_000 },
+                Section { name: "random-bytes-all-entry-points", runs: 120_000 },
+                Section { name: "every-prefix-with-reader-faults", runs: 3_000 },
+                Section { name: "amplification-attempts", runs: 1_200 },
+                Section { name: "single-decoders-damaged", runs: 100_000 },
             ],
             Tier::Thorough => vec![
                 Section { name: "damaged-streams", runs: 3_000_000 },
